@@ -58,6 +58,36 @@ type lpara struct {
 	Out9 bool
 	// docx h (render stream): the heading also carries numbering properties (w:numPr)
 	AlsoList bool
+	// odt h: the level that the DEFINITION CHAIN of the heading's paragraph style says, when
+	// it is not the heading's level (0 = they agree). The level of a <text:h> is its
+	// text:outline-level (OpenDocument 1.2 part 1, 5.1.2 / 19.844: "the outline level of
+	// the heading"); style:default-outline-level only says which level a paragraph GETS when
+	// the style is applied in an editor (19.470). A heading moved to another level keeps its
+	// paragraph style - as a rule through an automatic style Pn derived from "Heading N"
+	// that carries no outline level of its own - and says its level itself. Level stays the
+	// heading's level (what every oracle demands); StyleLevel only picks the style.
+	StyleLevel int
+	// odt h with StyleLevel: the style the heading names carries the other level ITSELF
+	// (style:default-outline-level in its own definition, or the level in its built-in
+	// name) - false: only a style above it in the parent-style-name chain does.
+	StyleOwn bool
+}
+
+// styleLevel: the level that picks the paragraph style of the heading.
+func (p *lpara) styleLevel() int {
+	if p.StyleLevel != 0 {
+		return p.StyleLevel
+	}
+	return p.Level
+}
+
+// otherLevel draws a level 1..9 that is not L.
+func otherLevel(r *hx.Rng, L int) int {
+	m := r.Range(1, 8)
+	if m >= L {
+		m++
+	}
+	return m
 }
 
 // bodyVias: the non-heading paragraph styles a document may use as its body style
@@ -133,6 +163,7 @@ type ldoc struct {
 	NoDraw    bool // fixed witness: the writers draw nothing of their own (no row / column grouping)
 	Grid      bool // drawn by genGridDoc: the subject is the table grid
 	Edge      bool // drawn by genEdgeDoc: numeric attributes at the edges of their range
+	Flavour   string // how the package spells its namespaces (flavour.go); "" = as the writers do
 	ntok      int
 }
 
@@ -278,6 +309,15 @@ func (d *ldoc) genFamilyHeading(r *hx.Rng) *lpara {
 	if s.Via == "family" {
 		p.Fam = s.ID
 	}
+	switch {
+	case d.Format != "odt":
+	case s.Via == "family" && s.Own == 0 && r.Chance(1, 2):
+		// the heading says another level than the one its style inherits
+		p.StyleLevel, p.Level = s.Level, otherLevel(r, s.Level)
+	case (s.Via != "family" || s.Own != 0) && r.Chance(1, 4):
+		// ... than the one its style carries itself
+		p.StyleLevel, p.StyleOwn, p.Level = s.Level, true, otherLevel(r, s.Level)
+	}
 	return p
 }
 
@@ -396,7 +436,22 @@ func (d *ldoc) genHeading(r *hx.Rng) *lpara {
 	} else {
 		p.Via = hx.Pick(r, []string{"builtin", "outline"})
 	}
+	if d.Format == "odt" {
+		switch p.Via {
+		case "inherited", "inherited2":
+			if r.Chance(1, 2) {
+				// the automatic style is derived from the heading style of another level
+				p.StyleLevel = otherLevel(r, p.Level)
+			}
+		case "builtin", "custom", "name":
+			if r.Chance(1, 4) {
+				// the heading names the heading style of another level itself
+				p.StyleLevel, p.StyleOwn = otherLevel(r, p.Level), true
+			}
+		}
+	}
 	if d.Body != "" && r.Bool() {
+		p.StyleLevel, p.StyleOwn = 0, false
 		// a heading made by direct formatting of a paragraph of the body text
 		p.Via = "outline"
 		if r.Chance(4, 5) {
@@ -886,10 +941,10 @@ func (t *ltable) tokens() []ptok {
 
 func (d *ldoc) canon() string {
 	var b strings.Builder
-	fmt.Fprintf(&b, "%s s%v n%v h%v f%v F%s B%s|", d.Format, d.Styles, d.Numbering, d.Header, d.Footer, d.Fam.canon(), d.Body)
+	fmt.Fprintf(&b, "%s s%v n%v h%v f%v F%s B%s X%s|", d.Format, d.Styles, d.Numbering, d.Header, d.Footer, d.Fam.canon(), d.Body, d.Flavour)
 	for _, bl := range d.Blocks {
 		if bl.P != nil {
-			fmt.Fprintf(&b, "%s/%d%s%v/%s%s%s%s%v/%d/%q;", bl.P.Kind, bl.P.Level, bl.P.RawLevel, bl.P.NoPara, bl.P.Via, bl.P.Fam, bl.P.Plain, bl.P.Jc, bl.P.Out9, bl.P.NumID, bl.P.wantText())
+			fmt.Fprintf(&b, "%s/%d~%d%v%s%v/%s%s%s%s%v/%d/%q;", bl.P.Kind, bl.P.Level, bl.P.StyleLevel, bl.P.StyleOwn, bl.P.RawLevel, bl.P.NoPara, bl.P.Via, bl.P.Fam, bl.P.Plain, bl.P.Jc, bl.P.Out9, bl.P.NumID, bl.P.wantText())
 			for _, ru := range bl.P.Runs {
 				b.WriteString(ru.Wrap + ",")
 			}
